@@ -87,7 +87,8 @@ pub fn defects() -> Defects {
 pub fn trigger_zero_window(sc: &Scenario) -> bool {
     for rx in 0..2 {
         let tx = 1 - rx;
-        let fits = sc.sides[tx].total() <= sc.cfg.recv_cap as u64;
+        // the FIN needs one unit of window too
+        let fits = sc.sides[tx].total() < sc.cfg.recv_cap as u64;
         if fits {
             continue;
         }
@@ -96,7 +97,7 @@ pub fn trigger_zero_window(sc: &Scenario) -> bool {
         }
         // the window does reach zero: every window update matters, and so does every ACK that
         // carries the re-opened window
-        if sc.plan.faults.iter().any(|f| f.act == Act::Drop) || sc.plan.reorders() > 0 || sc.plan.max_delay() > 0 {
+        if sc.plan.faults.iter().any(|f| f.act == Act::Drop) || sc.plan.reorders() > 0 || sc.plan.max_delay() > 0 || sc.plan.hole != Hole::None {
             return true;
         }
     }
@@ -125,7 +126,7 @@ pub fn classify_known(sc: &Scenario, out: &Outcome, class: &str) -> Option<&'sta
     if dk == [Kind::HsAck] && out.fired.len() == 1 {
         return Some(KF_LOST_HSACK);
     }
-    if trigger_zero_window(sc) && out.zero_window_seen && dk.iter().all(|k| matches!(k, Kind::WinUpd | Kind::Ack)) {
+    if trigger_zero_window(sc) && (out.zero_window_seen || !sc.topo.cross()) && dk.iter().all(|k| matches!(k, Kind::WinUpd | Kind::Ack)) {
         return Some(KF_ZERO_WINDOW);
     }
     if !dk.is_empty() && dk.iter().all(|k| matches!(k, Kind::Ack | Kind::WinUpd | Kind::HsAck)) {
@@ -167,7 +168,7 @@ fn gen_cfg(rng: &mut Rng, topo: Topo, wide: bool, avoid_small_caps: bool) -> Cfg
     };
     let send_cap = cap(rng);
     let recv_cap = if rng.chance(1, 3) { send_cap } else { cap(rng) };
-    Cfg { mtu, lo_mtu, send_cap, recv_cap, retx_threshold: rng.range(2, 4) as u32, retx_max: rng.range(2, 6) as u32 }
+    Cfg { mtu, lo_mtu, send_cap, recv_cap, retx_threshold: rng.range(2, 4) as u32, retx_max: rng.range(1, 6) as u32 }
 }
 
 fn gen_side(rng: &mut Rng, total: u32, wide: bool) -> Side {
@@ -292,7 +293,8 @@ pub fn generate(rng: &mut Rng, spread: &Spread) -> Scenario {
         3 => Topo::LoopV6,
         _ => Topo::OwnV4,
     };
-    let cfg = gen_cfg(rng, topo, spread.wide, avoid.zero_window && rng.chance(3, 4));
+    let large = rng.chance(3, 4);
+    let cfg = gen_cfg(rng, topo, spread.wide, avoid.zero_window && large);
     let unit = topo.mss(&cfg).min(cfg.send_cap).min(cfg.recv_cap).max(1);
     let mut sides;
     loop {
